@@ -143,6 +143,67 @@ def history_cases(tier):
                 yield (key, hist)
 
 
+# long histories: the N-th request is answered like the first (counters, caches that fill up, adaptive state)
+
+BIG_FILLERS = [
+    B.dumps([obj(ABSENT, i, "pair", [i, 1]) for i in range(1200)]),          # a large batch of 1.0 calls
+    B.dumps([obj("2.0", ABSENT, "f", [i]) for i in range(1200)] + [obj("2.0", "x", "boom")]),  # a large batch of 2.0 notifications
+    B.dumps(obj(ABSENT, 1, "f", [[[i] for i in range(3000)]])),             # a large 1.0 request
+]
+
+
+def long_cases(tier):
+    n = len(MENU)
+    for last in range(n):
+        for filler in range(n):
+            yield ("repeat", 130, filler, last)
+        for filler in (0, 1, 8, 11):
+            yield ("repeat", 1100 if tier == "quick" else 70000 if filler == 0 else 5000, filler, last)
+        yield ("cycle", 40, 0, last)
+        for b in range(len(BIG_FILLERS)):
+            yield ("big", 3, b, last)
+
+
+def check_long(case):
+    kind, count, filler, last = case
+    out = Out(cls="long-history/" + kind)
+    default_before = snap(jsonrpclib.config.DEFAULT)
+    results = []
+    for key in (WORLD_KEYS[0], WORLD_KEYS[1], WORLD_KEYS[3]):
+        w = mkworld(key)
+        cfg = w.d.json_config
+        before = snap(cfg)
+        try:
+            if kind == "repeat":
+                for _ in range(count):
+                    w.run(TEXTS[filler])
+            elif kind == "cycle":
+                for _ in range(count):
+                    for t in TEXTS:
+                        w.run(t)
+            else:
+                for _ in range(count):
+                    w.run(BIG_FILLERS[filler])
+            reply = w.run(TEXTS[last])
+        except Exception as ex:
+            _restore_default(default_before)
+            return out.bad("C13/dispatcher-raises", "long history %r on %r raised %r" % (case, key, ex))
+        if snap(cfg) != before or w.d.json_config is not cfg:
+            out.bad("C13/server-config-changed-by-request", "long history %r on %r changed the server Config" % (case, key))
+        if snap(jsonrpclib.config.DEFAULT) != default_before:
+            out.bad("C13/default-config-changed-by-request", "long history %r on %r changed jsonrpclib.config.DEFAULT" % (case, key))
+            _restore_default(default_before)
+        want = fresh_reply(key, last)
+        if parsed(reply) != parsed(want):
+            out.bad("C13/reply-depends-on-history", "long history %r on %r: request %s answered %r, a fresh dispatcher answers %r" % (case, key, TEXTS[last], reply, want))
+    return out
+
+
+def leg_long(part, tier, shard, nshards):
+    drive(part, "long-history", long_cases(tier), shard, nshards, check_long)
+    part.count("transitions", part.evals.get("long-history", 0) * 130)
+
+
 def leg_history(part, tier, shard, nshards):
     drive(part, "history", history_cases(tier), shard, nshards, check_history)
     part.add_to_set("states", ("history-leg", shard))
@@ -319,7 +380,7 @@ def leg_concurrent(part, tier, shard, nshards):
     part.merge(total)
 
 
-LEGS = {"history": leg_history, "config-copy": leg_copy, "concurrent": leg_concurrent}
+LEGS = {"long-history": leg_long, "history": leg_history, "config-copy": leg_copy, "concurrent": leg_concurrent}
 
 META = {
     "engine": "E2-fake-network-history-search+E1-schedule-explorer+E3-small-scope-enumeration",
@@ -328,7 +389,8 @@ META = {
     "stateless model checking of two concurrent dispatcher threads at source-line granularity; enumeration of mutation sequences on Config.copy()",
     "rule": "history: every sequence of <=3 (thorough <=4) requests over a 17-request menu (1.0/2.0 calls, notifications, failing, unknown, bad arity, mixed "
     "and 1.0 batches, invalid objects of both versions, unparsable text, methods returning a Fault object, requests carrying translated beans) x 6 server configurations (2.0, 1.0, translation off, inline notification pool, "
-    "shared DEFAULT config); config-copy: every sequence of <=2 mutations from a 16-mutation menu on the copy and on the original from 3 start states; "
+    "shared DEFAULT config); long-history: each menu request after 130 repetitions of each menu request, after 1100 (thorough up to 70000) repetitions of 4 of them, "
+    "after 40 cycles through the menu and after large batches / large requests, on 3 configurations (the N-th reply equals a fresh dispatcher's); config-copy: every sequence of <=2 mutations from a 16-mutation menu on the copy and on the original from 3 start states; "
     "concurrent: 8 request pairs (thorough + 2 triples) x 3 configurations, every schedule up to the completed preemption level at line granularity of "
     "SimpleJSONRPCServer.py, jsonrpc.py, config.py; non-trivial = history of length >= 2 / mutation applied / execution with a choice point",
     "bounds": {"quick": {"history_depth": 3, "mutation_depth": 2, "conc_levels": "K ladder 0..3 while predicted <= 3000"},
@@ -347,4 +409,6 @@ def replay(case):
     c = eval(case["case"], {"__builtins__": {}}, {})
     if case["leg"] == "history":
         return check_history(c).viols
+    if case["leg"] == "long-history":
+        return check_long(c).viols
     return check_copy(c).viols
